@@ -259,6 +259,7 @@ def loop_tokens(stdout):
     toks = []
     flags = {"ready": False, "end": False, "bad": False, "fault": False, "timing": False}
     group_open = False     # inside a diagnostic group
+    skip_t = False
     group_err = False
 
     def close():
@@ -276,6 +277,7 @@ def loop_tokens(stdout):
             if line[i:].startswith(READY):
                 flags["ready"] = True
                 del toks[:]
+                skip_t = True          # the sentinel's own `step evaluated' line follows it
             else:
                 flags["end"] = True
             continue
@@ -285,7 +287,10 @@ def loop_tokens(stdout):
             close()
             group_open = group_err = False
             flags["timing"] = True
-            toks.append(("T",))
+            if skip_t:
+                skip_t = False
+            else:
+                toks.append(("T",))
             continue
         if _GROUP1.search(line):
             close()
